@@ -34,7 +34,8 @@ impl World {
             return v;
         }
         let pre = self.probe(n, c);
-        let mut line = json!({"ev":"Call","t":t,"n":n,"c":c,"op":name});
+        let peer = self.nodes[n].conns[&c].peer;
+        let mut line = json!({"ev":"Call","t":t,"n":n,"c":c,"op":name,"peer":peer});
         let now = self.now();
         let r = self.guarded(&format!("op:{name}"), |w| {
             let is_server = w.nodes[n].is_server;
